@@ -139,7 +139,7 @@ func c03(c *core.Ctx, r *core.Report) {
 	c03param(c, r)
 	apGrammarRule(c, r, "R03.apgrammar", "analysis/backtrace")
 	stopsRule(c, r, "R03.stops", "analysis/backtrace", 3)
-	edgeLoopRule(c, r, "R03.edgeloop", "analysis/backtrace", "Visitor.visit", 8)
+	edgeLoopRule(c, r, "R03.edgeloop", "analysis/backtrace", "Visitor.visit", 1)
 	buildRule(c, r, "R03.build", "analysis/backtrace", "Visitor.visit", 3,
 		"in eager mode a function that was not summarised by the first pass (a function without predefined summary in a package that has some, a pkg-filter miss) is skipped by the backward traversal with a trace-level message only: its inputs appear in no trace, while the on-demand configuration - and the taint analysis in both configurations - follow them", true)
 	ensureRule(c, r, "R03.ensure", "analysis/backtrace", "Visitor.visit", 8, "In", "Out")
